@@ -23,6 +23,9 @@ Definition enc_bins (bs : list bin) : list (list (list Z)) := map (fun b => [enc
 Definition enc_opt (o : option (list bin)) : list (list (list Z)) := match o with None => [] | Some b => enc_bins b end.
 Definition enc_qs (l : list Q) : list (list Z) := map (fun q => [Qnum q; Zpos (Qden q)]) l.
 Definition tab (l : list Q) (k : nat) : Q := nth k l (Qmake 0%Z 1%positive).
+Fixpoint zrange (fuel : nat) (i : Z) : list Z := match fuel with O => [] | S f => i :: zrange f (i + 1)%Z end.
+Definition gen_seq_q (n p q : Z) (lo scale : Q) (m : Z) (drift : Q) : list Q :=
+  map (fun i => lo + inject_Z ((i * p) mod q) * scale + inject_Z (i / m) * drift) (zrange (Z.to_nat n) 0%Z).
 """
 
 KHEADER = """From Coq Require Import QArith ZArith List PrimFloat.
@@ -31,6 +34,9 @@ Import ListNotations.
 Open Scope float_scope.
 Definition enc_qs (l : list Q) : list (list Z) := map (fun q => [Qnum q; Zpos (Qden q)]) l.
 Definition unopt (o : option (list SpecFloat.spec_float)) := match o with Some l => l | None => [] end.
+Fixpoint zrange (fuel : nat) (i : Z) : list Z := match fuel with O => [] | S f => i :: zrange f (i + 1)%Z end.
+Definition gen_seq_f (n p q : Z) (lo scale : float) (m : Z) (drift : float) : list float :=
+  map (fun i => lo + f_of_Z ((i * p) mod q) * scale + f_of_Z (i / m) * drift) (zrange (Z.to_nat n) 0%Z).
 """
 KERNELS = ["gaussian", "tophat", "epanechnikov", "exponential", "linear", "cosine"]
 KNORM = {"gaussian": 1 / math.sqrt(2 * math.pi), "tophat": 0.5, "epanechnikov": 0.75, "exponential": 0.5, "linear": 1.0,
@@ -41,6 +47,53 @@ KTOL = {"row_rel": 1e-9, "row_abs": 1e-12, "perm_rel": 1e-10, "perm_abs": 1e-14,
         "transcendental_rel": 1e-14}
 
 INF, NINF = "inf", "-inf"
+
+
+# ------------------------------------------------------------------ long sequences, kept compact in the case
+def expand_seq(s):
+    """A sequence is a list of numbers, or {"gen": [n, p, q, lo, scale, m, drift]} for a long one:
+    x_i = lo + ((i * p) % q) * scale + (i // m) * drift  (every term is a dyadic number: exact in binary64 and in Q).
+    The drift makes consecutive stretches of the sequence differ, so that processing it in pieces shows."""
+    if isinstance(s, dict):
+        n, p, q, lo, scale, m, drift = s["gen"]
+        return [lo + ((i * p) % q) * scale + (i // m) * drift for i in range(n)]
+    return s
+
+
+_TESTS = {}
+
+
+def tests_of(c):
+    k = id(c)
+    if k not in _TESTS:
+        _TESTS[k] = (c, [expand_seq(s) for s in c["test"]])
+    return _TESTS[k][1]
+
+
+def gen_spec(rng, n):
+    q = rng.choice([101, 127, 61, 251])
+    p = rng.choice([37, 29, 53, 17])
+    return {"gen": [n, p, q, float(rng.choice([-6, -3, 0, 1])), rng.choice([0.125, 0.25, 0.0625]),
+                    rng.choice([100, 512, 700, 333]), rng.choice([0.5, 0.25, 1.0])]}
+
+
+# block sizes a piecewise implementation might use, plus one: lengths that are NOT a multiple of them
+LONG_LENGTHS = [1025, 1500, 2500, 5000]
+MORE_LENGTHS = [65, 129, 257, 513, 2049, 4097, 3000, 1023, 1024, 2048]
+
+
+def coq_seq_q(s):
+    if isinstance(s, dict):
+        n, p, q, lo, scale, m, drift = s["gen"]
+        return "(gen_seq_q %d%%Z %d%%Z %d%%Z %s %s %d%%Z %s)" % (n, p, q, coq_q(Fraction(lo)), coq_q(Fraction(scale)), m, coq_q(Fraction(drift)))
+    return coq_qlist([Fraction(x) for x in s])
+
+
+def coq_seq_f(s):
+    if isinstance(s, dict):
+        n, p, q, lo, scale, m, drift = s["gen"]
+        return "(gen_seq_f %d%%Z %d%%Z %d%%Z %s %s %d%%Z %s)" % (n, p, q, hx(lo), hx(scale), m, hx(drift))
+    return flist([float(x).hex() for x in s])
 
 
 # ------------------------------------------------------------------ exact values
@@ -207,6 +260,25 @@ def gen_kde(rng):
             "train_type": rng.choice(["ndarray", "ndarray", "list"]), "test": test, "perms": perms, "types": types}
 
 
+def gen_kde_long(rng, n):
+    """A KDE case whose first test sequence has n values (compact spec), transformed together with a short one."""
+    c = gen_kde(rng)
+    short = [x for x in c["test"][0][:5]]
+    c["test"] = [gen_spec(rng, n), short]
+    p = list(range(len(short)))
+    rng.shuffle(p)
+    c["perms"] = [{"seed": rng.randrange(10 ** 6)}, p]
+    c["types"] = ["ndarray", "list"]
+    return c
+
+
+def gen_hist_long(rng, n):
+    c = gen_hist(rng)
+    c["test"] = [gen_spec(rng, n)] + c["test"][:1]
+    c["types"] = ["list", "ndarray", "series"]
+    return c
+
+
 CORPUS = [
     # D24: a pd.Series whose most frequent bin is not the first one
     {"kind": "hist", "strategy": "uniform", "n": 3, "a0": NINF, "a1": INF, "outlier": False,
@@ -237,7 +309,7 @@ def coq_hist(c, r):
     model of fit)."""
     bins = [(from_rat(l), from_rat(rr)) for l, rr in r["bins"]]
     cb = "[" + "; ".join("(%s, %s)" % (coq_ext(l), coq_ext(rr)) for l, rr in bins) + "]"
-    tests = "[" + "; ".join(coq_qlist([Fraction(x) for x in s]) for s in c["test"]) + "]"
+    tests = "[" + "; ".join(coq_seq_q(s) for s in c["test"]) + "]"
     a0, a1 = coq_ext(frac(c["a0"])), coq_ext(frac(c["a1"]))
     outl = C.coq_bool(c["outlier"])
     if c["strategy"] == "uniform":
@@ -280,10 +352,10 @@ def hist_oracle(c, r):
     if not r["fit_returns_self"]:
         bad.append(("fit did not return self", None))
     for t, rows in r["rows"].items():
-        if len(rows) != len(c["test"]):
-            bad.append(("%s: %d rows for %d sequences" % (t, len(rows), len(c["test"])), None))
+        if len(rows) != len(tests_of(c)):
+            bad.append(("%s: %d rows for %d sequences" % (t, len(rows), len(tests_of(c))), None))
             continue
-        for i, (seq, row) in enumerate(zip(c["test"], rows)):
+        for i, (seq, row) in enumerate(zip(tests_of(c), rows)):
             xs = [Fraction(x) for x in seq]
             if len(row) != len(bins) or any(v < 0 or v != int(v) for v in row):
                 bad.append(("%s row %d: not a vector of naturals of length #bins: %s" % (t, i, row), None))
@@ -331,7 +403,9 @@ def near_support_edge(c, h, grid):
     if c.get("kernel") != "tophat":
         return set()
     skip = set()
-    for i, seq in enumerate(c["test"]):
+    for i, seq in enumerate(tests_of(c)):
+        if len(seq) > 200:
+            continue
         for x in seq:
             for g in grid:
                 d = abs(g - x)
@@ -354,24 +428,27 @@ def kde_oracle(c, r):
     if any(not (min(flat) <= g <= max(flat)) for g in grid) or any(a > b for a, b in zip(grid, grid[1:])):
         bad.append(("evaluation grid not increasing inside [min, max] of the training values: %s" % grid, None))
     skip = near_support_edge(c, h, grid)
-    if len(r["rows"]) != len(c["test"]):
-        return bad + [("%d rows for %d sequences" % (len(r["rows"]), len(c["test"])), None)]
-    for i, (seq, row, prow, drow) in enumerate(zip(c["test"], r["rows"], r["perm_rows"], r["dup_rows"])):
+    if len(r["rows"]) != len(tests_of(c)):
+        return bad + [("%d rows for %d sequences" % (len(r["rows"]), len(tests_of(c))), None)]
+    for i, (seq, row, prow, drow, rrow) in enumerate(zip(tests_of(c), r["rows"], r["perm_rows"], r["dup_rows"], r["rev_rows"])):
+        show = seq if len(seq) <= 40 else {"length": len(seq), "spec": c["test"][i]}
         if len(row) != len(grid) or any((not math.isfinite(v)) or v < 0 for v in row):
             bad.append(("row %d has negative / non-finite entries or wrong length: %s" % (i, row), None))
             continue
         if i in skip:
             continue
         if any(not close(a, b, KTOL["perm_rel"], KTOL["perm_abs"]) for a, b in zip(row, prow)):
-            bad.append(("row %d changes under a permutation of the sample: %s vs %s" % (i, row, prow),
-                        {"seq": seq, "perm": c["perms"][i]}))
+            bad.append(("row %d (%d values) changes under a permutation of the sample: %s vs %s" % (i, len(seq), row, prow),
+                        {"seq": show, "perm": c["perms"][i]}))
+        if any(not close(a, b, KTOL["perm_rel"], KTOL["perm_abs"]) for a, b in zip(row, rrow)):
+            bad.append(("row %d (%d values) changes when the sample is reversed: %s vs %s" % (i, len(seq), row, rrow), {"seq": show}))
         if any(not close(a, b, KTOL["perm_rel"], KTOL["perm_abs"]) for a, b in zip(row, drow)):
             bad.append(("row %d changes when every value of the sample is repeated twice (same empirical distribution): %s vs %s"
-                        % (i, row, drow), {"seq": seq}))
+                        % (i, row, drow), {"seq": show}))
         want = kernel_mean(kernel, h, grid, seq)
         if any(not close(a, b, KTOL["row_rel"], KTOL["row_abs"]) for a, b in zip(row, want)):
-            bad.append(("row %d is not the mean of %s kernels of bandwidth %r on the fitted grid: %s vs %s" % (i, kernel, h, row, want),
-                        {"seq": seq}))
+            bad.append(("row %d (%d values) is not the mean of %s kernels of bandwidth %r on the fitted grid: %s vs %s"
+                        % (i, len(seq), kernel, h, row, want), {"seq": show}))
     for t, rows in r["rows_by_type"].items():
         if len(rows) != len(r["rows"]) or any(i not in skip and not rows_close([a], [b], KTOL["perm_rel"], KTOL["perm_abs"])
                                                for i, (a, b) in enumerate(zip(rows, r["rows"]))):
@@ -391,7 +468,7 @@ def coq_kde(c, r):
     """(rows of the binary64 model on the implementation's grid / bandwidth, model of the fitted grid (exact rationals),
     model of the bandwidth candidates, model of the selection among the implementation's candidates)"""
     kern = c.get("kernel", "gaussian").capitalize()
-    tests = "[" + "; ".join(flist([float(x).hex() for x in s]) for s in c["test"]) + "]"
+    tests = "[" + "; ".join(coq_seq_f(s) for s in c["test"]) + "]"
     rows = "f_kde_transform %s %s %s %s" % (kern, hx(r["bandwidth"]), flist([float(g).hex() for g in r["grid"]]), tests)
     flat = [x for s in c["train"] for x in s]
     grid = "enc_qs (kde_fit_grid %s %s %d%%nat)" % (C.coq_bool(c["grid"] == "density"), coq_qlist([Fraction(x) for x in flat]), c["n"])
@@ -471,12 +548,18 @@ def run(ctx, replay=None):
         cases = [replay["case"]]
     else:
         cases = CORPUS + [gen_hist(ctx.rng) for _ in range(n_h)] + [gen_kde(ctx.rng) for _ in range(n_k)]
+        # in EVERY run: sequences of more than 1000 values, of lengths that are not a multiple of a likely block size
+        reps = 1 if ctx.quick else 4
+        for _ in range(reps):
+            cases += [gen_kde_long(ctx.rng, n) for n in LONG_LENGTHS + ctx.rng.sample(MORE_LENGTHS, 3)]
+            cases += [gen_hist_long(ctx.rng, n) for n in [5000, 1025] + ctx.rng.sample(MORE_LENGTHS, 2)]
     ctx.coverage["rule"] = ("random (strategy, n_components, absolute_range incl. +-inf and == training min/max, outlier bins, "
                             "training collection, test sequences with values on edges / extremes / one ulp beside them / far "
                             "outside, input type) histogram cases + KDE cases (kernel among the six of KernelDensity, bandwidth "
                             "given or estimated, grid strategy, n_components incl. 1, list / ndarray / tuple / float32 / int "
-                            "sequences, single-value sequences, duplicated values, values exactly at distance h of a grid point "
-                            "and one ulp beside, values far outside the grid, permuted and doubled samples); non-trivial = at "
+                            "sequences, single-value sequences, long sequences (1025, 1500, 2500, 5000 values and lengths one above / at powers "
+                            "of two, for KDE and histogram rows, in every run), duplicated values, values exactly at distance h of a grid point "
+                            "and one ulp beside, values far outside the grid, permuted, reversed and doubled samples); non-trivial = at "
                             "least one test value; distinct by case hash")
     ctx.assumptions += ["bin edges / values are binary64 floats read as exact rationals (float.as_integer_ratio); no NaN / inf values",
                         "pd.interval_range's linspace, np.cumsum and bin_range*k of find_bin_boundaries are floating point: "
@@ -511,9 +594,9 @@ def run(ctx, replay=None):
         model, kmodel = fh.result(), fk.result()
     model_of = dict(zip(hist_idx, model))
     kmodel_of = dict(zip(kde_idx, kmodel))
-    corr_bad, n_corr, n_oracle, n_kcorr, n_krows = [], 0, 0, 0, 0
+    corr_bad, n_corr, n_oracle, n_kcorr, n_krows, n_klong, n_hlong = [], 0, 0, 0, 0, 0, 0
     for i, (c, r) in enumerate(zip(cases, impl)):
-        nval = sum(len(s) for s in c["test"])
+        nval = sum(len(s) for s in tests_of(c))
         if c["kind"] == "hist":
             rk = "default" if (c["a0"], c["a1"]) == (NINF, INF) else "finite" if NINF != c["a0"] and INF != c["a1"] else "half"
             kind = "hist:%s:%s:%s" % (c["strategy"], rk, "outlier" if c["outlier"] else "expand")
@@ -535,10 +618,12 @@ def run(ctx, replay=None):
         if c["kind"] != "hist":
             n_kcorr += 1
             n_krows += len(c["test"])
+            n_klong += sum(1 for s in tests_of(c) if len(s) > 1000)
             for what, got, want in kde_correspondence(c, r, kmodel_of[i]):
                 corr_bad.append((c, "KDE " + what, got, want))
             continue
         n_corr += 1
+        n_hlong += sum(1 for s in tests_of(c) if len(s) > 1000)
         chain_ok, mrows, mfit, mbreaks = model_of[i]
         impl_bins = [(from_rat(l), from_rat(rr)) for l, rr in r["bins"]]
         if chain_ok is not True:
@@ -555,7 +640,8 @@ def run(ctx, replay=None):
             if [Fraction(n, d) for n, d in mbreaks] != [from_rat(x) for x in r["breaks"]]:
                 corr_bad.append((c, "find_bin_boundaries", r["breaks"], mbreaks))
     ctx.coverage["correspondence"] = {"cases": n_corr + n_kcorr, "histogram_cases": n_corr, "kde_cases": n_kcorr,
-                                      "kde_rows_executed_in_coq": n_krows, "disagreements": len(corr_bad),
+                                      "kde_rows_executed_in_coq": n_krows, "kde_rows_longer_than_1000_values": n_klong,
+                                      "histogram_rows_longer_than_1000_values": n_hlong, "disagreements": len(corr_bad),
                                       "model": "Model/K15_HistKDE.v via vm_compute (chainb on the implementation's bins, "
                                                "hist_transform, hist_fit_uniform / find_breaks + hist_fit_breaks); "
                                                "Model/K15_KDEexec.v via vm_compute over binary64 (kde_transform_k on the fitted "
